@@ -322,12 +322,15 @@ def run_program(name, seed, options=None):
         info['tau'] = tau_d
         if tau_d is None:
             # every template is a bounded, feasible model: no value means that what was solved is not the declared model (or its certificate / instance is missing)
-            for pid_ in ('C01', 'C02', 'C05', 'C11', 'C13', 'C14', 'C16'):
+            for pid_ in ('C01', 'C02', 'C03', 'C04', 'C05', 'C07', 'C08', 'C11', 'C12', 'C13', 'C14', 'C15', 'C16', 'C17'):
                 fails.append((pid_, 'unexpected_none', 'a bounded feasible model returned None'))
             return info, fails
         check_sent(pep, w, fails)
         # constraints the template declared (kept in its handles at declaration time) reach the solver, whatever the library's lists say after the solve
         sent_ids = {id(o) for _, o in w.sent}
+        for m_, entries in h.get('lmi_snapshots', []):
+            if any(m_[i_, j_] is not entries[i_][j_] for i_ in range(len(entries)) for j_ in range(len(entries[0]))):
+                fails.append(('C05', 'sent.lmi_as_declared', 'an LMI no longer holds the entries it was declared with (the array it was declared from was modified afterwards)'))
         for c in h.get('declared', []):
             if id(c) not in sent_ids:
                 fails.append(('C05', 'sent.declared', 'a constraint declared by the user (%s) was not sent to the solver' % (c.get_name() or type(c).__name__)))
